@@ -51,6 +51,12 @@ def disagrees(case, obs):
         return got != [sorted(common.norm(m) for m in case["expected_markers"]), sorted(case["expected_field_types"])]
     if k == "dump":
         return obs["dump_diff"] not in (None, "skip")
+    if k == "where_markers_of":
+        import re
+        for tr, ws in obs["where"].items():
+            if re.sub(r"<.*$", "", tr).rsplit("::", 1)[-1] == case["trait"]:
+                return sorted(w for w in ws if re.fullmatch(r"T:[ML]\d+", w)) != sorted(case["expected_markers"])
+        return True
     if k == "eq_binders":
         from . import c17
         return c17.binders_misplaced(obs["out"]) is not None
